@@ -495,4 +495,67 @@ theorem doAwaitDataResponse_turn (n : Nat) (D : List Nat) (c c' : Ctx) (now : In
   · rcases ite_inv h with ⟨_, h⟩ | ⟨_, h⟩ <;> cases h
   · rcases ite_inv h with ⟨_, h⟩ | ⟨_, h⟩ <;> cases h
 
+/-! ## One whole poll -/
+
+/-- The `UseTokenData` of the current token visit, if the station is in one. -/
+def visitData (s : Station) : Option UseData :=
+  match s.st with
+  | .useToken d _ => some d
+  | .awaitData _ d => some d
+  | _ => none
+
+theorem visitData_cases {s : Station} {d : UseData} (h : visitData s = some d) :
+    (∃ fcd, s.st = .useToken d fcd) ∨ (∃ a, s.st = .awaitData a d) := by
+  unfold visitData at h
+  cases hst : s.st <;> rw [hst] at h <;> simp at h
+  · subst h; exact .inl ⟨_, rfl⟩
+  · subst h; exact .inr ⟨_, rfl⟩
+
+theorem visitData_holding {s : Station} {d : UseData} (h : visitData s = some d) : Holding s := by
+  rcases visitData_cases h with ⟨fcd, h⟩ | ⟨a, h⟩
+  · exact .inl ⟨d, fcd, h⟩
+  · exact .inr ⟨a, d, h⟩
+
+/-- One whole poll from a state inside a token visit, with the visit's turn bookkeeping. -/
+theorem poll_turn (s : Station) (apps : Apps) (now : Int) (phy : Bool) (rx : Bytes) (c' : Ctx) (d : UseData)
+    (D : List Nat) (hd : visitData s = some d) (hv : VTurn apps.length d.firstApp s.nextApp D)
+    (h : s.poll apps now phy rx = .ok c') :
+    TurnPost apps.length D { s := s, apps := apps, rx := rx } c' now (¬ now < (holdUpdate s d).endTokenHoldTime) := by
+  have hh := visitData_holding hd
+  unfold Station.poll pollInner at h
+  cases hon : s.online with
+  | false =>
+    simp only [hon] at h
+    cases hst : s.st <;> simp only [hst] at h <;> cases h
+    exact ⟨[], rfl, trivial, .inl ⟨rfl, rfl, rfl⟩⟩
+  | true =>
+    simp only [hon] at h
+    obtain ⟨c1, hs, h⟩ := bind_ok_inv h
+    have := pollStart_inv _ _ hs
+    subst this
+    simp only [holding_wake s hh] at h
+    rcases ite_inv h with ⟨_, h⟩ | ⟨_, h⟩
+    · cases h; exact ⟨[], rfl, trivial, .inl ⟨rfl, by simp [upd, markBA_st], by simp [upd, markBA_nextApp]⟩⟩
+    · unfold dispatch at h
+      simp only [upd] at h
+      have hover : (¬ now < (holdUpdate (checkBusActivity s now rx.length) d).endTokenHoldTime) →
+          ¬ now < (holdUpdate s d).endTokenHoldTime := by
+        intro ho
+        rw [← hold_end_congr (checkBusActivity s now rx.length) s d (checkBA_clock s now _).1 (checkBA_p s now _)
+          (coreEq_checkBA s now _).2.2.2.1 (checkBA_clock s now _).2]
+        exact ho
+      rcases visitData_cases hd with ⟨fcd, hst⟩ | ⟨a, hst⟩
+      · have hst' : (checkBusActivity s now rx.length).st = .useToken d fcd := by rw [checkBA_st]; exact hst
+        rw [hst'] at h
+        simp only at h
+        exact TurnPost.lift (c0 := { s := checkBusActivity s now rx.length, apps := apps, rx := rx }) rfl
+          (checkBA_st s now _) (checkBA_nextApp s now _) hover
+          (doUseToken_turn apps.length D _ c' now d fcd hst' rfl (by simpa [checkBA_nextApp] using hv) h)
+      · have hst' : (checkBusActivity s now rx.length).st = .awaitData a d := by rw [checkBA_st]; exact hst
+        rw [hst'] at h
+        simp only at h
+        exact TurnPost.lift (c0 := { s := checkBusActivity s now rx.length, apps := apps, rx := rx }) rfl
+          (checkBA_st s now _) (checkBA_nextApp s now _) hover
+          (doAwaitDataResponse_turn apps.length D _ c' now a d hst' rfl (by simpa [checkBA_nextApp] using hv) h)
+
 end PV
